@@ -245,20 +245,27 @@ func (vc *VC) evalSpec(e *Expr, env *SpecEnv) SV {
 				allInt = false
 			}
 		}
-		if env.role == 1 && env.pol > 0 && e.Name == "forall" && allInt {
+		if env.role == 1 && env.pol > 0 && e.Name == "forall" && (allInt || !vc.dry) {
 			// skolemise
 			n := env
 			var ranges []T
 			for _, v := range e.Vars {
-				sk := vc.fresh("sk_"+v[0], "Int")
-				vc.goalSk = append(vc.goalSk, sk)
+				srt := specSort(v[1])
+				if srt == "byte" || srt == "nat" || srt == "int" {
+					srt = "Int"
+				}
+				vc.needSort(srt)
+				sk := vc.fresh("sk_"+v[0], srt)
+				if srt == "Int" {
+					vc.goalSk = append(vc.goalSk, sk)
+				}
 				switch specSort(v[1]) {
 				case "byte":
 					ranges = append(ranges, inRange(sk, "0", "255"))
 				case "nat":
 					ranges = append(ranges, le("0", sk))
 				}
-				n = n.bind(v[0], SV{t: sk, srt: "Int"})
+				n = n.bind(v[0], SV{t: sk, srt: srt})
 			}
 			body := vc.evalSpec(e.Args[0], n).t
 			return mathBool(implies(and(ranges...), body))
@@ -605,8 +612,9 @@ func (vc *VC) indexSpec(x, i SV, env *SpecEnv) SV {
 		case *types.Map:
 			// Go semantics: the zero value for an absent key (see has(m, k))
 			hv, hp, _, _ := vc.mapHeaps(u)
-			present := and(not(eq(x.t, "0")), sel(sel(vc.heapGet(env.cur, hp), x.t), i.t))
-			return SV{t: ite(present, sel(sel(vc.heapGet(env.cur, hv), x.t), i.t), vc.zero(u.Elem())), typ: u.Elem()}
+			ik := vc.mapKey(u, i.t)
+			present := and(not(eq(x.t, "0")), sel(sel(vc.heapGet(env.cur, hp), x.t), ik))
+			return SV{t: ite(present, sel(sel(vc.heapGet(env.cur, hv), x.t), ik), vc.zero(u.Elem())), typ: u.Elem()}
 		case *types.Pointer:
 			if a, ok := u.Elem().Underlying().(*types.Array); ok {
 				d := vc.derefSpec(x, env)
@@ -892,7 +900,7 @@ func (vc *VC) evalCall(e *Expr, env *SpecEnv) SV {
 			return mathBool(tFalse)
 		}
 		_, hp, _, _ := vc.mapHeaps(mt)
-		return mathBool(and(not(eq(m.t, "0")), sel(sel(vc.heapGet(env.cur, hp), m.t), k.t)))
+		return mathBool(and(not(eq(m.t, "0")), sel(sel(vc.heapGet(env.cur, hp), m.t), vc.mapKey(mt, k.t))))
 	case "bytes":
 		// bytes(s): []byte(s) for a string in value mode
 		x := ev(0)
